@@ -590,7 +590,9 @@ class SimplicialComplex(Hypergraph):
                 _ = iter(members)
             except TypeError as e:
                 raise XGIError("Invalid ebunch format") from e
-            if isinstance(members, Iterator):  # one-shot iterable: read it once
+            if not isinstance(members, (list, tuple, set, frozenset)):
+                # one-shot iterables are read once; other containers (dict views,
+                # numpy arrays) have no usable truth value or length
                 members = list(members)
 
             # check that it does not exist yet (based on members, not ID)
